@@ -192,6 +192,20 @@ func c08Corpus(family string) [][]byte {
 		add([]byte{0x32, 0x7F, 0x00})       // size larger than the buffer
 		add([]byte{0x32, 0xFF, 0xFF, 0xFF, 0xFF, 0x0F, 0x00})
 		add([]byte{0x34})                   // extension flag without extension octet
+		// size fields of 8, 9 and 10 octets (values at and beyond 2^56 / 2^63), alone and behind a complete OBU
+		for _, lebn := range []int{8, 9, 10} {
+			for _, last := range []byte{0x01, 0x7F} {
+				for _, mid := range []byte{0x80, 0xFF} {
+					f := []byte{0x32}
+					for i := 0; i < lebn-1; i++ {
+						f = append(f, mid)
+					}
+					f = append(f, last, 0xAA, 0xBB)
+					add(f)
+					add(append([]byte{0x32, 0x01, 0x55}, f...))
+				}
+			}
+		}
 		add([]byte{0x36, 0x20})             // extension + size flag, no size
 		add([]byte{0x32, 0x01, 0xAA, 0x32}) // second OBU cut after its header
 		add([]byte{0x32, 0x01, 0xAA, 0x80}) // second OBU has the forbidden bit
